@@ -5,8 +5,18 @@ import json
 TEXTS_FALLBACK = {}
 
 
+# placeholders of the specification for non-ASCII characters (TLC's JSON output mangles non-ASCII text)
+PLACE = {"`": "é", "^": "世", "|": "\U0001F600"}
+
+
+def unplace(s):
+    for k, v in PLACE.items():
+        s = s.replace(k, v)
+    return s
+
+
 def chars(x):
-    return "".join(x)
+    return unplace("".join(x))
 
 
 def expr(e):
@@ -39,7 +49,7 @@ def atom(e):
     return "(" + expr(e) + ")"
 
 
-END = {"if": "endif", "for": "endfor", "forkv": "endfor", "setblock": "endset", "filter": "endfilter"}
+END = {"if": "endif", "for": "endfor", "forkv": "endfor", "setblock": "endset", "setgblock": "endset", "filter": "endfilter"}
 
 
 def source(prog, texts, suffix):
@@ -70,6 +80,9 @@ def source(prog, texts, suffix):
             out.append("{% " + k + " %}")
         elif k == "setblock":
             out.append("{% set " + t["n"] + (" | " + t["m"] if t["m"] else "") + " %}")
+            stack.append(k)
+        elif k == "setgblock":
+            out.append("{% set_global " + t["n"] + (" | " + t["m"] if t["m"] else "") + " %}")
             stack.append(k)
         elif k == "filter":
             out.append("{% filter " + t["n"] + " %}")
